@@ -172,7 +172,7 @@ class Walker:
         if isinstance(v, InstanceDict):
             return ("idict", self.visit(v.obj, path, lambda x: None))
         if isinstance(v, Source):
-            return ("src", v.name, v.state)
+            return ("src", v.name, v.state, v.ended)
         if isinstance(v, GenObj):
             n, new = self.oid(v)
             return ("gen", n, v.fn.name, v.state)
@@ -264,7 +264,13 @@ class Walker:
             return v.shape_visit(self, path)
         if isinstance(v, list):
             return ("pylist",) + tuple(self.visit(x, f"{path}[{i}]", lambda x2, v=v, i=i: v.__setitem__(i, x2)) for i, x in enumerate(v))
-        if isinstance(v, (SrcMethod, GenMethod, ListMethod, DictMethod, CMMethod)):
+        if isinstance(v, SrcMethod):
+            return ("method", "SrcMethod", v.src.name, v.name)
+        if isinstance(v, CMMethod):
+            return ("method", "CMMethod", v.cm.name, v.name)
+        if isinstance(v, GenMethod):
+            return ("method", "GenMethod", self.visit(v.gen, path + ".__self__", lambda x: None), v.name)
+        if isinstance(v, (ListMethod, DictMethod)):
             return ("method", type(v).__name__, v.name)
         if isinstance(v, (PropertyCall, DescriptorCall)):
             return ("propcall",)
@@ -500,6 +506,7 @@ class Verifier:
                 raise Budget(f"more than {self.job.max_paths} paths")
             ctx = Ctx(dec, self.job.opts.get("solver_timeout_ms", self.timeout_ms))
             ctx.fresh_mode = bool(self.job.opts.get("fresh_solver"))
+            ctx.eq_is_incomparable = bool(self.job.opts.get("eq_is_incomparable"))
             try:
                 self.run_path(ctx)
             except (PathEnd, Infeasible):
@@ -520,6 +527,9 @@ class Verifier:
             work.extend(ctx.pending)
         if self.final:
             self.result.paths = n
+
+    def explore_snapshots_unused(self):
+        pass
 
     def explore_snapshots(self):
         """protocol jobs: every cut point of the consumer loop is explored from a snapshot of its generic state"""
@@ -777,7 +787,8 @@ class Verifier:
         fk = job.opts.get("fault_kinds", ("raise", "cancel"))
         if ev.kind == "Pull":
             src = ev.payload[0]
-            src.state = "running"
+            if src.state != "closed":
+                src.state = "running"
             src.pulls += 1
             if job.opts.get("suspend_at_pull") and job.opts.get("at_suspension"):
                 job.opts["at_suspension"](self, ctx, ev)       # the source may suspend: other tasks run here
@@ -791,11 +802,13 @@ class Verifier:
                 self.trace.append((f"pull {src.name}", f"item {v.t}"))
                 return ("item", v)
             if c == "end":
+                src.ended = True
                 src.state = "exhausted"
                 self.trace.append((f"pull {src.name}", "end"))
                 return ("end", None)
             env.fault_used = True
             if c == "raise":
+                src.ended = True
                 src.state = "closed" if src.kind == "gen" else "raised"
                 e = ExcVal("UserError", ident=("src", src.name, src.pulls), origin="env")
             else:
@@ -914,12 +927,15 @@ class Verifier:
                 e = ExcVal("UserError", ident=("cm-enter", cm.name, ctx.evseq), origin="env")
                 self.trace.append((d, "raise UserError"))
                 return ("raise", e)
-            opts = ["falsy", "truthy", "raise"]
-            c = opts[ctx.choose(3, f"cm exit {cm.name}")]
+            opts = ["falsy", "truthy", "raise"] + (["cancel"] if job.opts.get("cm_exit_cancel") else [])
+            c = opts[ctx.choose(len(opts), f"cm exit {cm.name}")]
             cm.held -= 1
             self.trace.append((d, c))
             if c == "raise":
                 return ("raise", ExcVal("UserError2", ident=("cm-exit", cm.name, ctx.evseq), origin="env"))
+            if c == "cancel":
+                # cancellation delivered while suspended inside the exit (a BaseException, not an Exception)
+                return ("raise", ExcVal("Cancelled", ident=("cm-exit-cancel", cm.name, ctx.evseq), origin="env"))
             return ("ret", c == "truthy")
         if ev.kind == "GenOp":
             gen, op, arg = ev.payload
@@ -1291,7 +1307,7 @@ class Verifier:
     def state_key(self, impl_i, ref_i, node_site, erase):
         w = Walker(erase_lists=erase)
         frames = w.visit_frames([impl_i, ref_i])
-        srcs = tuple(sorted((s.name, s.state) for s in self.env.sources.values()))
+        srcs = tuple(sorted((s.name, s.state, s.ended) for s in self.env.sources.values()))
         pr = self.pending_ref
         def setp(x, pr=pr):
             pr.payload = x
@@ -1350,6 +1366,14 @@ class Verifier:
 
     def cut(self, ctx, ev, impl_i, ref_i):
         site = ev.site
+        fr = ev.payload[1] if len(ev.payload) > 1 else None
+        if fr is not None and fr.fn.module.modname.startswith("stdlib:"):
+            # statically bounded helper loops of interpreted stdlib code (heap sifting over <= arity entries): unrolled
+            k = ("stdlib", site)
+            self.loop_counts[k] = self.loop_counts.get(k, 0) + 1
+            if self.loop_counts[k] > 400:
+                raise Budget("stdlib helper loop does not terminate")
+            return
         if self.mode == "prove":
             self.retain_check(ctx, impl_i)
         if self.mode == "bounded":
